@@ -47,6 +47,9 @@ type pump struct {
 	tseq  uint16 // transport-wide number of the last local packet
 	acked uint16
 	fb    uint8
+	// failing-writer measurement
+	written int
+	atPhase func()
 }
 
 func newPump(kind string) (*pump, error) {
@@ -73,6 +76,7 @@ func (p *pump) write(seq uint16) {
 	h, pl := hk.Shape(0, l.Info.SSRC, seq, uint32(seq)*90)
 	_ = h.SetExtension(hk.TwccExtID, []byte{byte(p.tseq >> 8), byte(p.tseq)})
 	_, _ = l.W.Write(&h, pl, nil)
+	p.written += 2
 	// the same sequence number pattern (incl. duplicates and late packets) on the plain stream
 	l2 := p.s.Locals[2]
 	h2, pl2 := hk.Shape(0, l2.Info.SSRC, seq, uint32(seq)*90)
@@ -168,12 +172,19 @@ type replay struct {
 
 // pumpCycle runs the cycle for five phases and returns the sizes at the phase boundaries.
 func pumpCycle(j job, cycle []int) ([]int64, *vsched.Result) {
+	return pumpCycleWith(j, cycle, nil)
+}
+
+func pumpCycleWith(j job, cycle []int, prepare func(*pump)) ([]int64, *vsched.Result) {
 	var sizes []int64
 	res := vsched.Run(vsched.Options{Strategy: vsched.BackgroundFirst{}, MaxSteps: 2_000_000_000}, func() {
 		p, err := newPump(j.Kind)
 		if err != nil {
 			vsched.Failf("setup: %v", err)
 			return
+		}
+		if prepare != nil {
+			prepare(p)
 		}
 		for phase := 0; phase < 5; phase++ {
 			for it := 0; it < j.P; it++ {
@@ -182,6 +193,9 @@ func pumpCycle(j job, cycle []int) ([]int64, *vsched.Result) {
 				}
 			}
 			sizes = append(sizes, p.size())
+			if p.atPhase != nil {
+				p.atPhase()
+			}
 		}
 		_ = p.s.I.Close()
 	})
@@ -466,6 +480,36 @@ func run(tier string, i int, deadline time.Time) *hk.JobResult {
 				Replay:  replay{Job: j, Kind: "many-streams"}})
 		}
 	}
+	if cp := kindCaps[j.Kind]; j.Chunk == 2 && cp.local {
+		// the next writer of every local stream fails persistently (a track closed underneath the interceptor)
+		// while the application keeps writing: what cannot be sent must not pile up
+		var pp *pump
+		var backlog []int64
+		sizes, res := pumpCycleWith(j, []int{0}, func(p *pump) {
+			p.s.T.FailAllRTP = true
+			pp = p
+			// the part of the queue that lives in a goroutine's local variables is invisible to the walk from the
+			// interceptor: what was written but never offered to the (failing) next writer is counted as well
+			p.atPhase = func() { backlog = append(backlog, int64(p.written-p.s.T.Attempts)) }
+		})
+		_ = pp
+		r.Executions++
+		r.Transitions += int64(5 * j.P)
+		if len(res.Panics) == 0 && !res.StepLimit && !res.Deadlock && len(res.Failures) == 0 && leak(backlog, j.P) {
+			r.Violations = append(r.Violations, hk.Violation{Key: "C12:" + j.Kind + ":backlog-grows-on-failing-writer",
+				Message: fmt.Sprintf("%s: the transport's RTP writer fails on every call; packets written by the application minus packets offered to the next writer at the end of five equal phases of %d iterations: %v - what cannot be sent piles up", j.Kind, j.P, backlog),
+				Replay:  replay{Job: j, Kind: "failing-writer"}})
+		}
+		if len(res.Panics) == 0 && !res.StepLimit && !res.Deadlock && len(res.Failures) == 0 && leak(sizes, j.P) {
+			key := "C12:" + j.Kind + ":grows-with-traffic"
+			if cause(j, []int{1}) != "" {
+				key += ":on-failing-writer" // the kind is bounded on in-order traffic while the writer works
+			}
+			r.Violations = append(r.Violations, hk.Violation{Key: key,
+				Message: fmt.Sprintf("%s: the transport's RTP writer fails on every call; retained size at the end of five equal phases of %d written packets: %v bytes - it grows by at least a byte per packet in every phase", j.Kind, j.P, sizes),
+				Replay:  replay{Job: j, Kind: "failing-writer"}})
+		}
+	}
 	if j.Chunk == 0 {
 		msg, after, never := unbindCheck(j)
 		r.Executions++
@@ -502,6 +546,17 @@ func init() {
 				msg, after, never := unbindCheck(rp.Job)
 				if msg == "" && after > never+256 {
 					return fmt.Sprintf("%d bytes retained after Unbind, %d for an instance that never had a stream", after, never)
+				}
+				return ""
+			}
+			if rp.Kind == "failing-writer" {
+				var backlog []int64
+				sizes, _ := pumpCycleWith(rp.Job, []int{0}, func(p *pump) {
+					p.s.T.FailAllRTP = true
+					p.atPhase = func() { backlog = append(backlog, int64(p.written-p.s.T.Attempts)) }
+				})
+				if leak(sizes, rp.Job.P) || leak(backlog, rp.Job.P) {
+					return fmt.Sprintf("sizes %v backlog %v", sizes, backlog)
 				}
 				return ""
 			}
